@@ -169,6 +169,9 @@ func judgeDet(c *CheckCtx, s *Slot, dc *detCase, ipRuns, bbRuns int) *Violation 
 // tieProgram builds a program with deliberate ties: the same method name in
 // several classes/frames, static and instance methods of one name.
 func tieProgram(r *RNG) string {
+	if r.Chance(1, 3) {
+		return tieProgramNamespaces(r)
+	}
 	names := []string{"run", "call", "size", "name", "build", "to_s"}
 	classes := []string{"Alpha", "Beta", "Gamma", "Delta"}
 	// names that collide under plausible normalisations (case folding, dropped
@@ -212,6 +215,35 @@ func tieProgram(r *RNG) string {
 	return sb.String()
 }
 
+// tieProgramNamespaces: one short class name in several namespaces whose names
+// have the same length, each with another superclass and mixin (an unqualified
+// query has to pick one of them), and a receiver that is a union of classes
+// which each define the called method themselves (one call, several owners).
+func tieProgramNamespaces(r *RNG) string {
+	var sb strings.Builder
+	short := Pick(r, []string{"Widget", "Item", "Node"})
+	nss := []string{"Gui", "Web", "Cli", "Api"}
+	Shuffle(r, nss)
+	k := 2 + r.Intn(3)
+	for i := 0; i < k; i++ {
+		fmt.Fprintf(&sb, "class Super%d\n  def from_super%d\n    %d\n  end\nend\nmodule Mix%d\n  def from_mix%d\n    %d\n  end\nend\n", i, i, i, i, i, i)
+	}
+	for i := 0; i < k; i++ {
+		fmt.Fprintf(&sb, "module %s\n  class %s < Super%d\n    include Mix%d\n    def speak\n      %s\n    end\n    def self.make\n      new\n    end\n  end\nend\n", nss[i], short, i, i, Pick(r, []string{"1", "\"s\"", ":k", "2.5"}))
+	}
+	owners := []string{"Cat", "Dog", "Cow", "Owl"}[:2+r.Intn(3)]
+	for i, o := range owners {
+		fmt.Fprintf(&sb, "class %s\n  def speak\n    %s\n  end\nend\n", o, []string{"1", "\"s\"", ":k", "2.5"}[i])
+	}
+	var news []string
+	for _, o := range owners {
+		news = append(news, o+".new")
+	}
+	fmt.Fprintf(&sb, "def pick(n)\n  [%s][n]\nend\ndef chorus(n)\n  animal = pick(n)\n  animal.speak\nend\ndbtp chorus(0)\n", strings.Join(news, ", "))
+	fmt.Fprintf(&sb, "w = %s::%s.make\ndbtp w.speak\nw.\n", nss[0], short)
+	return sb.String()
+}
+
 func init() {
 	register(&Check{ID: "C05", Title: "same input, same output",
 		Replay: func(c *CheckCtx, s *Slot, v *Violation) *Violation {
@@ -223,7 +255,7 @@ func init() {
 			return judgeDet(c, s, &dc, 2, 6)
 		},
 		Run: func(c *CheckCtx) {
-			c.rule = "cases = (corpus program | generated program with deliberate name ties) x 13 argv shapes (plain, -i, --hover, --suggest, --llm-nav, --llm-nav --all, --llm-nav --target=, --llm-define, --llm-define --class=, --llm-class, --extends --class=, --define, --llm-error); each executed 4x in one in-process worker (every run re-randomises Go map iteration) and, for a fixed share, 3x by the plain binary in separate processes under GOMAXPROCS in {1,4,16} x GOGC in {1,100,off}; outputs compared byte for byte (--define as a sorted multiset of lines). distinct_nontrivial = distinct (mode, source) pairs with non-empty output. Thorough also runs the corpus through the race-detector build."
+			c.rule = "cases = (corpus program | generated program with deliberate name ties: one method name in several classes and frames, class names that collide under case folding, one short class name in several namespaces of equal name length with different ancestors, a receiver that is a union of classes each defining the called method) x 13 argv shapes (plain, -i, --hover, --suggest, --llm-nav, --llm-nav --all, --llm-nav --target=, --llm-define, --llm-define --class=, --llm-class, --extends --class=, --define, --llm-error); each executed 4x in one in-process worker (every run re-randomises Go map iteration) and, for a fixed share, 3x by the plain binary in separate processes under GOMAXPROCS in {1,4,16} x GOGC in {1,100,off}; outputs compared byte for byte (--define as a sorted multiset of lines). distinct_nontrivial = distinct (mode, source) pairs with non-empty output. Thorough also runs the corpus through the race-detector build."
 			c.assumptions = []string{"a difference seen only in-process is reported only if separate processes of the plain binary differ too (6 runs)"}
 			items := Corpus()
 			type job struct {
